@@ -380,7 +380,14 @@ func runC05(e *core.Env) error {
 		byName := map[string]*wTask{}
 		for i := range root.Integrations {
 			ci := root.Integrations[i]
-			t, err := w.addTask("t"+ci.Name, ci, "src1", 1, 0, 1+rr.Intn(4), 1+rr.Intn(2))
+			stop := uint64(0)
+			if len(wantDeps[ci.Name]) > 0 && rr.Chance(1, 3) {
+				// a bounded dependent: the source's head is usually beyond the stop block while the
+				// referenced integration is still below it
+				stop = uint64(2 + rr.Intn(3))
+				w.tags["dependent-with-stop"]++
+			}
+			t, err := w.addTask("t"+ci.Name, ci, "src1", 1, stop, 1+rr.Intn(4), 1+rr.Intn(2))
 			if err != nil {
 				w.close()
 				return err
@@ -457,6 +464,38 @@ func runC05(e *core.Env) error {
 					}
 				}
 				e.Add(core.Case{Impl: verdict, Spec: "ok", Class: "C05.dashboard_no_dependencies", Key: "c05-dashboard", Nontrivial: true, Tags: []string{"dashboard-dependencies"}})
+				// the same name declared in the file AND stored through the dashboard: the file's (validated)
+				// declaration is the one that runs, with its dependencies
+				conf2 := config.Root{Sources: conf.Sources, Integrations: []config.Integration{
+					transferIG("iga", "ta", []string{"block_time"}, func(ci *config.Integration) { ci.Sources = []config.Source{{Name: "src1", Start: 1}} }),
+					transferIG("igb", "tb", []string{"block_time", "log_addr"}, func(ci *config.Integration) {
+						ci.Sources = []config.Source{{Name: "src1", Start: 1}}
+						for j := range ci.Block {
+							if ci.Block[j].Name == "log_addr" {
+								ci.Block[j].Filter = dig.Filter{Op: "contains", Ref: dig.Ref{Integration: "iga", Column: "ev_from"}}
+							}
+						}
+					})}}
+				verdict2 := "ok"
+				if verr := config.ValidateFix(&conf2); verr != nil {
+					verdict2 = "rejected: " + verr.Error()
+				} else if ts, lerr := shovel.VerifLoadTasks(w.ctx, pool2, conf2); lerr != nil {
+					verdict2 = "load: " + lerr.Error()
+				} else {
+					found := false
+					for _, t := range ts {
+						if t.IG == "igb" {
+							found = true
+							if strings.Join(t.Dependencies, ",") != "iga" {
+								verdict2 = fmt.Sprintf("igb is declared in the file with a reference to iga but runs with dependencies %v", t.Dependencies)
+							}
+						}
+					}
+					if !found {
+						verdict2 = "no task for igb"
+					}
+				}
+				e.Add(core.Case{Impl: verdict2, Spec: "ok", Key: "c05-file-and-dashboard", Nontrivial: true, Tags: []string{"file-declaration-wins"}})
 				go pool2.Close()
 			}
 			pg2.Close()
@@ -767,7 +806,12 @@ func runC06(e *core.Env) error {
 					continue
 				}
 				before := w.taskDigest(t)
+				headBefore := w.head()
+				_, _, hadPos, _ := w.taskRows(t)
 				out := w.step(t, noFault)
+				if _, _, hasNow, _ := w.taskRows(t); g.start == 0 && !prior && !hadPos && hasNow && lo == 0 {
+					lo = headBefore - 1 // no start, no position: begins at the source's head of that moment
+				}
 				oracles = append(oracles, w.withinOracle(t, lo))
 				_, top, has, _ := w.taskRows(t)
 				verdict := "ok"
@@ -841,6 +885,56 @@ func runC06(e *core.Env) error {
 		e.Add(core.Case{Impl: verdict, Spec: "ok", Key: fmt.Sprintf("c06-pair-o %d", rep), Nontrivial: true, Tags: []string{"bounded-next-to-unbounded-oracle"}})
 		op, impl := w.caseOp()
 		e.Add(core.Case{Op: op, Impl: impl, Oracles: oracles, Nontrivial: true, Key: fmt.Sprintf("c06-pair %d %d", rep, e.Seed), Tags: []string{"bounded-next-to-unbounded"}})
+		w.close()
+	}
+	// ---- "with none it begins at the source's CURRENT head": an integration without a start joins a
+	// source whose (shared, caching) client has been serving another task for a while; the chain has
+	// grown since the client last looked. Its first recorded position is the head at that moment.
+	for rep := 0; rep < e.N(4, 16) && !e.OverBudget(); rep++ {
+		rr := r.Fork()
+		chain := transferChain(5+rr.Intn(4), uint64(1+rr.Intn(1000)))
+		w, err := newWorld(e, chain)
+		if err != nil {
+			return err
+		}
+		w.client = jrpc2.New(w.node.URL()).WithMaxReads(6 + rr.Intn(3)).WithPollDuration(time.Hour)
+		root := config.Root{Integrations: []config.Integration{transferIG("old", "t1", []string{"block_time"}, nil), transferIG("late", "t2", []string{"block_time"}, nil)}}
+		if err := w.setupRoot(&root); err != nil {
+			w.close()
+			return err
+		}
+		old, err1 := w.addTask("old", root.Integrations[0], "src1", 1, 0, 3, 1)
+		late, err2 := w.addTask("late", root.Integrations[1], "src1", 0, 0, 1+rr.Intn(3), 1)
+		if err1 != nil || err2 != nil {
+			w.close()
+			return fmt.Errorf("c06 late: %v %v", err1, err2)
+		}
+		for k := 0; k < 12 && !w.dead; k++ {
+			if out := w.step(old, noFault); !strings.HasPrefix(out, "ok") {
+				break
+			}
+		}
+		w.grow(1 + rep%4)
+		h0 := w.head()
+		out := w.step(late, noFault)
+		rows, top, has, first := w.taskRows(late)
+		verdict := "ok"
+		switch {
+		case !strings.HasPrefix(out, "ok") || !has:
+			verdict = "first step of the late integration: " + out
+		case first != h0 || top != h0:
+			verdict = fmt.Sprintf("the source's head is %d; the integration without a start recorded positions %d..%d", h0, first, top)
+		}
+		for _, r := range rows {
+			var bn uint64
+			fmt.Sscanf(r, "%d:", &bn)
+			if bn < h0 {
+				verdict = fmt.Sprintf("the source's head is %d; the integration without a start wrote a row for block %d", h0, bn)
+			}
+		}
+		op, impl := w.caseOp()
+		e.Add(core.Case{Impl: verdict, Spec: "ok", Key: fmt.Sprintf("c06-late-o %d", rep), Nontrivial: true, Tags: []string{"begins-at-current-head"}, Detail: map[string]any{"history": strings.Split(op, "\n")}})
+		e.Add(core.Case{Op: op, Impl: impl, Oracles: []string{w.withinOracle(late, h0-1)}, Nontrivial: true, Key: fmt.Sprintf("c06-late %d %d", rep, e.Seed), Tags: []string{"begins-at-current-head"}})
 		w.close()
 	}
 	return nil
